@@ -116,8 +116,55 @@ def strlen(rng, big=False):
     return rng.choice([0, 1, 2, 5, 9, 17, 40])
 
 
-def gen_rows(rng, n, convert=True, f32_signal=False):
+NUM_DTYPES = ['float64', 'float32', 'int32', 'int64']
+
+
+def pick_dtype(rng, dtypes='mixed', p=0.4):
+    """dtype of one supplied numeric field: `dtypes` is a fixed dtype name, 'float64' (the historic class) or
+    'mixed' (float64 with probability 1-p, else one of float32 / int32 / int64)"""
+    if dtypes != 'mixed':
+        return dtypes
+    return rng.choice(NUM_DTYPES[1:]) if rng.random() < p else 'float64'
+
+
+def cast(v, dtype, nonzero=False):
+    """the supplied number as a value the dtype holds EXACTLY (so that the value handed to the writer, the value the
+    oracle converts and the value Coq multiplies by the exact unit ratio are the same number)"""
+    if dtype == 'float32':
+        return struct.unpack('<f', struct.pack('<f', v))[0]
+    if dtype in ('int32', 'int64'):
+        k = int(round(v))
+        return (1 if v >= 0 else -1) if (nonzero and k == 0) else k
+    return float(v)
+
+
+def cast_all(vals, dtype, nonzero=False):
+    return [cast_all(v, dtype, nonzero) if isinstance(v, list) else cast(v, dtype, nonzero) for v in vals]
+
+
+def gen_rows(rng, n, convert=True, f32_signal=False, row_dtypes=None):
+    """row_dtypes: None (historic: float64 momenta/energy, int64|float64 indices), 'narrow' (momenta/energy float32 when
+    they are already in the documented unit, indices int32|int64|float32), 'all-f32' (every one of the nine rows
+    float32, as for pixels taken from an existing SQW file; documented units only)"""
     rows = {}
+    if row_dtypes == 'all-f32':
+        for name in ('u1', 'u2', 'u3', 'u4'):
+            rows[name] = {'unit': ROW_TARGET[name], 'dtype': 'float32', 'values': [f32_exact(rng) for _ in range(n)]}
+        for name in ('irun', 'idet', 'ien'):
+            rows[name] = {'unit': None, 'dtype': 'float32', 'values': [float(rng.randrange(0, 1000)) for _ in range(n)]}
+        rows['signal'] = {'unit': 'count', 'dtype': 'float32', 'values': [abs(f32_exact(rng)) for _ in range(n)]}
+        rows['error'] = {'values': [abs(f32_exact(rng)) for _ in range(n)]}
+        return rows
+    if row_dtypes == 'narrow':
+        rows = gen_rows(rng, n, convert, f32_signal)
+        for name in ('u1', 'u2', 'u3', 'u4'):
+            if rows[name]['unit'] == ROW_TARGET[name] and rng.random() < 0.5:
+                rows[name] = {'unit': rows[name]['unit'], 'dtype': 'float32', 'values': [f32_exact(rng) for _ in range(n)]}
+        for name in ('irun', 'idet', 'ien'):
+            dt = rng.choice(['int32', 'int64', 'float32'])
+            rows[name] = {'unit': None, 'dtype': dt,
+                          'values': [(float if dt == 'float32' else int)(rng.randrange(0, 100000)) for _ in range(n)]}
+        return rows
     for name in ('u1', 'u2', 'u3'):
         unit = rng.choice(INV_LEN) if convert else '1/angstrom'
         rows[name] = {'unit': unit, 'dtype': 'float64',
@@ -140,11 +187,25 @@ def gen_rows(rng, n, convert=True, f32_signal=False):
     return rows
 
 
-def sq(rng, units, lo=-50.0, hi=50.0):
-    return {'value': rng.choice([0.0, rng.uniform(lo, hi), rng.uniform(lo, hi)]), 'unit': rng.choice(units)}
+def sq(rng, units, lo=-50.0, hi=50.0, dtypes='float64'):
+    dt = pick_dtype(rng, dtypes)
+    out = {'value': cast(rng.choice([0.0, rng.uniform(lo, hi), rng.uniform(lo, hi)]), dt), 'unit': rng.choice(units)}
+    if dt != 'float64':
+        out['dtype'] = dt
+    return out
 
 
-def gen_experiment(rng, run_id, indirect=None, en2d=False, big=False):
+def with_dtype(spec, dt, nonzero=False):
+    """cast the 'values' of a quantity spec to dtype dt and record it (float64 specs stay as they always were)"""
+    if dt != 'float64':
+        spec['values'] = cast_all(spec['values'], dt, nonzero)
+        spec['dtype'] = dt
+    return spec
+
+
+def gen_experiment(rng, run_id, indirect=None, en2d=False, big=False, dtypes='mixed'):
+    """dtypes: 'mixed' (each numeric field float64 / float32 / int32 / int64 independently), or one dtype name for
+    every field that can carry one (efix, en, psi, omega, dpsi, gl, gs; u and v are scipp vectors: always float64)"""
     if indirect is None:
         indirect = rng.random() < 0.4
     n_en = rng.randrange(1, 6)
@@ -164,29 +225,32 @@ def gen_experiment(rng, run_id, indirect=None, en2d=False, big=False):
                   'values': [[rng.uniform(-20, 20) for _ in range(ndet)] for _ in range(n_en)]}
     else:
         en = {'dims': ['energy_transfer'], 'unit': eunit, 'values': [rng.uniform(-20, 20) for _ in range(n_en)]}
+    with_dtype(efix, pick_dtype(rng, dtypes), nonzero=True)
+    with_dtype(en, pick_dtype(rng, dtypes))
     return {
         'run_id': run_id, 'efix': efix, 'emode': 'indirect' if indirect else 'direct', 'en': en,
-        'psi': sq(rng, ANGLE, -400, 400), 'omega': sq(rng, ANGLE, -400, 400), 'dpsi': sq(rng, ANGLE, -5, 5),
-        'gl': sq(rng, ANGLE, -5, 5), 'gs': sq(rng, ANGLE, -5, 5),
+        'psi': sq(rng, ANGLE, -400, 400, dtypes), 'omega': sq(rng, ANGLE, -400, 400, dtypes), 'dpsi': sq(rng, ANGLE, -5, 5, dtypes),
+        'gl': sq(rng, ANGLE, -5, 5, dtypes), 'gs': sq(rng, ANGLE, -5, 5, dtypes),
         'u': {'values': [rng.uniform(-2, 2) for _ in range(3)]}, 'v': {'values': [rng.uniform(-2, 2) for _ in range(3)]},
         'filename': ascii_string(rng, strlen(rng, big)), 'filepath': ascii_string(rng, strlen(rng, big)),
     }
 
 
-def gen_pix_call(rng, n, n_runs=None, convert=True, f32_signal=False, en2d=False, big=False, run_ids='seq'):
+def gen_pix_call(rng, n, n_runs=None, convert=True, f32_signal=False, en2d=False, big=False, run_ids='seq',
+                 dtypes='mixed', row_dtypes=None):
     if n_runs is None:
         n_runs = rng.randrange(1, 4)
     if n == 0:
         # the range of an empty row is scipp's identity element pushed through to_unit; only modelled for the documented units
-        convert, f32_signal = False, False
+        convert, f32_signal, row_dtypes = False, False, None
     ids = list(range(n_runs)) if run_ids == 'seq' else sorted(rng.sample(range(0, 10 * n_runs + 5), n_runs))
-    return {'kind': 'pix', 'npix': n, 'rows': gen_rows(rng, n, convert, f32_signal), 'n_dims': rng.choice([None, None, 4, 3]),
-            'experiments': [gen_experiment(rng, i, en2d=en2d, big=big and k == 0) for k, i in enumerate(ids)]}
+    return {'kind': 'pix', 'npix': n, 'rows': gen_rows(rng, n, convert, f32_signal, row_dtypes), 'n_dims': rng.choice([None, None, 4, 3]),
+            'experiments': [gen_experiment(rng, i, en2d=en2d, big=big and k == 0, dtypes=dtypes) for k, i in enumerate(ids)]}
 
 
-def gen_inst_call(rng, big=False):
+def gen_inst_call(rng, big=False, dtypes='mixed'):
     return {'kind': 'inst', 'name': ascii_string(rng, strlen(rng, big)), 'src_name': ascii_string(rng, strlen(rng)),
-            'src_target': ascii_string(rng, strlen(rng)), 'freq': {'value': rng.uniform(0, 100), 'unit': rng.choice(['MHz', 'Hz'])}}
+            'src_target': ascii_string(rng, strlen(rng)), 'freq': sq(rng, ['MHz', 'Hz'], 0, 100, dtypes)}
 
 
 def gen_samp_call(rng, big=False):
@@ -195,26 +259,45 @@ def gen_samp_call(rng, big=False):
             'angdeg': {'values': [rng.uniform(10, 170) for _ in range(3)], 'unit': rng.choice(['deg', 'rad'])}}
 
 
-def gen_dnd_call(rng, nbins=None, big=False):
+def gen_dnd_call(rng, nbins=None, big=False, dtypes='mixed'):
+    """dtypes as in gen_experiment, for img_scales / img_range / both offsets (lattice parameters and u, v, w are vectors:
+    float64); n_bins_all_dims and dax are int64 or int32"""
     if nbins is None:
         nbins = [rng.choice([1, 2, 3, 5]) for _ in range(4)]
     k = len(nbins)
 
     def multi(f):
         return [f(rng.choice(INV_LEN)) for _ in range(3)] + [f(rng.choice(ENERGY))]
+
+    def one(lo, hi, nonzero=False):
+        def f(u):
+            dt = pick_dtype(rng, dtypes)
+            out = {'value': cast(rng.uniform(lo, hi), dt, nonzero), 'unit': u}
+            if dt != 'float64':
+                out['dtype'] = dt
+            return out
+        return f
+
+    def rng_pair(u):
+        dt = pick_dtype(rng, dtypes)
+        return with_dtype({'values': sorted([rng.uniform(-10, 10), rng.uniform(-10, 10)]), 'unit': u}, dt)
     axes = {
         'title': ascii_string(rng, strlen(rng, big)), 'label': [ascii_string(rng, rng.choice([0, 1, 2, 6])) for _ in range(4)],
-        'img_scales': multi(lambda u: {'value': rng.uniform(0.01, 10), 'unit': u}),
-        'img_range': multi(lambda u: {'values': sorted([rng.uniform(-10, 10), rng.uniform(-10, 10)]), 'unit': u}),
+        'img_scales': multi(one(0.01, 10, nonzero=True)),
+        'img_range': multi(rng_pair),
         'nbins': nbins, 'single_bin': [rng.random() < 0.5 for _ in range(k)],
-        'dax': rng.sample(range(4), 4), 'offset': multi(lambda u: {'value': rng.uniform(-3, 3), 'unit': u}),
+        'dax': rng.sample(range(4), 4), 'offset': multi(one(-3, 3)),
         'changes_aspect': rng.random() < 0.5,
     }
+    if dtypes != 'float64':
+        idt = rng.choice(['int64', 'int64', 'int32'])
+        if idt != 'int64':
+            axes['int_dtype'] = idt
     vu = rng.choice(INV_LEN[:3])
     proj = {
         'alatt': {'values': [rng.uniform(0.5, 20) for _ in range(3)], 'unit': rng.choice(LEN)},
         'angdeg': {'values': [rng.uniform(10, 170) for _ in range(3)], 'unit': rng.choice(['deg', 'rad'])},
-        'offset': multi(lambda u: {'value': rng.uniform(-3, 3), 'unit': u}),
+        'offset': multi(one(-3, 3)),
         'title': ascii_string(rng, strlen(rng)), 'label': [ascii_string(rng, rng.choice([0, 1, 3])) for _ in range(4)],
         'u': {'values': [rng.uniform(-2, 2) for _ in range(3)], 'unit': vu},
         'v': {'values': [rng.uniform(-2, 2) for _ in range(3)], 'unit': rng.choice(INV_LEN[:3])},
@@ -224,16 +307,43 @@ def gen_dnd_call(rng, nbins=None, big=False):
     return {'kind': 'dnd', 'axes': axes, 'proj': proj}
 
 
-def gen_call(rng, kind, n=3, **kw):
+def gen_call(rng, kind, n=3, dtypes='mixed', **kw):
     if kind == 'pix':
-        return gen_pix_call(rng, n, **kw)
+        return gen_pix_call(rng, n, dtypes=dtypes, **kw)
     if kind == 'inst':
-        return gen_inst_call(rng)
+        return gen_inst_call(rng, dtypes=dtypes)
     if kind == 'samp':
         return gen_samp_call(rng)
     if kind == 'dnd':
-        return gen_dnd_call(rng)
+        return gen_dnd_call(rng, dtypes=dtypes)
     return {'kind': 'det'}
+
+
+def field_dtypes(call):
+    """the dtypes of the numeric fields of one generated call (float64 when not recorded), for coverage / descriptions"""
+    out = {}
+
+    def see(name, spec):
+        if isinstance(spec, dict) and ('value' in spec or 'values' in spec):
+            out[name] = spec.get('dtype', 'float64')
+    k = call['kind']
+    if k == 'pix':
+        for x in call['experiments']:
+            for f in ('efix', 'en', 'psi', 'omega', 'dpsi', 'gl', 'gs'):
+                out.setdefault('exp.' + f, set()).add(x[f].get('dtype', 'float64'))
+        for name, r in call['rows'].items():
+            if 'dtype' in r:
+                out.setdefault('row.' + name, set()).add(r['dtype'])
+        return {a: sorted(b) for a, b in out.items()}
+    if k == 'inst':
+        see('inst.freq', call['freq'])
+    if k == 'dnd':
+        for grp, pfx in ((call['axes'], 'ax.'), (call['proj'], 'pr.')):
+            for f in ('img_scales', 'img_range', 'offset'):
+                for i, spec in enumerate(grp.get(f, [])):
+                    see(f'{pfx}{f}.{i}', spec)
+        out['ax.int'] = call['axes'].get('int_dtype', 'int64')
+    return out
 
 
 def all_sequences():
@@ -265,9 +375,13 @@ def describe(case):
             d['calls'].append({'kind': 'pix', 'npix': c['npix'], 'n_runs': len(c['experiments']),
                                'row_units': {k: c['rows'][k].get('unit') for k in ('u1', 'u2', 'u3', 'u4', 'signal')},
                                'modes': sorted({x['emode'] for x in c['experiments']}),
-                               'en_ndim': sorted({len(x['en']['dims']) for x in c['experiments']})})
+                               'en_ndim': sorted({len(x['en']['dims']) for x in c['experiments']}),
+                               'dtypes': {k: v for k, v in field_dtypes(c).items() if v not in (['float64'], ['int64'])}})
         elif c['kind'] == 'dnd':
-            d['calls'].append({'kind': 'dnd', 'nbins': c['axes']['nbins']})
+            d['calls'].append({'kind': 'dnd', 'nbins': c['axes']['nbins'],
+                               'dtypes': {k: v for k, v in field_dtypes(c).items() if v not in ('float64', 'int64')}})
+        elif c['kind'] == 'inst':
+            d['calls'].append({'kind': 'inst', 'freq_dtype': c['freq'].get('dtype', 'float64')})
         else:
             d['calls'].append({'kind': c['kind']})
     return d
@@ -494,7 +608,97 @@ def py_structure(raw):
     names = [tuple(d['name']) for d in descs]
     if len(set(names)) != len(names):
         problems.append('duplicate block in the table')
+    for d in descs:
+        why = block_problem(raw, d, bo)
+        if why:
+            problems.append(f'block {d["name"]} ({d["type"]}, extent {d["position"]}+{d["size"]}) {why}')
     return {'byteorder': 'little' if bo == '<' else 'big', 'n_dims': nd, 'descs': descs, 'problems': problems}
+
+
+# "each extent holding a block of the declared type that decodes completely within it", evaluated on the bytes with a
+# decoder written from the format description (typed, self-describing object arrays), not with the package's reader
+SCALAR_SIZE = {0: 1, 3: 8, 4: 4, 5: 1, 6: 1, 9: 4, 10: 4, 11: 8, 12: 8}     # logical f64 f32 i8 u8 i32 u32 i64 u64
+EXPECTED_TYPE = {('data', 'nd_data'): 'dnd_data_block', ('pix', 'data_wrap'): 'pix_data_block'}
+
+
+class _Undecodable(Exception):
+    pass
+
+
+def decode_object_array(raw, pos, end, bo, depth=0):
+    """position after ONE object array starting at pos; raises _Undecodable when it would leave [pos, end) or meets an
+    unknown type tag"""
+    def take(n):
+        nonlocal pos
+        if n < 0 or pos + n > end:
+            raise _Undecodable(f'needs {n} bytes at offset {pos}, the extent ends at {end}')
+        b = raw[pos:pos + n]
+        pos += n
+        return b
+
+    def u32():
+        return struct.unpack(bo + 'I', take(4))[0]
+    if depth > 64:
+        raise _Undecodable('nesting deeper than 64')
+    tag = take(1)[0]
+    if tag == 32:                                  # "serializes itself": the object array follows
+        return decode_object_array(raw, pos, end, bo, depth + 1)
+    shape = [u32() for _ in range(take(1)[0])]
+    vol = 1
+    for k in shape:
+        vol *= k
+    if tag == 1:                                   # char: nothing at all for the empty shape
+        if shape:
+            take(vol)
+    elif tag == 23:                                # cell: vol object arrays
+        for _ in range(vol):
+            pos = decode_object_array(raw, pos, end, bo, depth + 1)
+    elif tag == 24:                                # struct(s): field names once, then ONE cell array with all values
+        if shape:
+            sizes = [u32() for _ in range(u32())]
+            for k in sizes:
+                take(k)
+            if pos >= end or raw[pos] != 23:
+                raise _Undecodable(f'struct field values at offset {pos} are not a cell array')
+            pos = decode_object_array(raw, pos, end, bo, depth + 1)
+    elif tag in SCALAR_SIZE:
+        take(SCALAR_SIZE[tag] * vol)
+    else:
+        raise _Undecodable(f'unknown type tag {tag} at offset {pos - 2 - 4 * len(shape)}')
+    return pos
+
+
+def block_problem(raw, d, bo):
+    """'' when the extent of descriptor d holds a block of the declared type that decodes to exactly its size"""
+    name, p, size = tuple(d['name']), d['position'], d['size']
+    end = p + size
+    if d['type'] != EXPECTED_TYPE.get(name, 'data_block'):
+        return f'is declared as {d["type"]}'
+    if end > len(raw):
+        return f'ends beyond the end of the file ({len(raw)} bytes)'
+    try:
+        if name == ('pix', 'data_wrap'):
+            if size < 12:
+                return 'is shorter than the pixel block header'
+            n_rows = struct.unpack(bo + 'I', raw[p:p + 4])[0]
+            n_pix = struct.unpack(bo + 'Q', raw[p + 4:p + 12])[0]
+            used = 12 + 4 * n_rows * n_pix
+        elif name == ('data', 'nd_data'):
+            if size < 4:
+                return 'is shorter than the histogram block header'
+            k = struct.unpack(bo + 'I', raw[p:p + 4])[0]
+            if 4 + 4 * k > size:
+                return f'declares {k} dimensions that do not fit'
+            shape = struct.unpack(bo + f'{k}I', raw[p + 4:p + 4 + 4 * k])
+            vol = 1
+            for n in shape:
+                vol *= n
+            used = 4 + 4 * k + 3 * 8 * vol
+        else:
+            used = decode_object_array(raw, p, end, bo) - p
+    except _Undecodable as ex:
+        return f'does not decode within its extent: {ex}'
+    return '' if used == size else f'decodes to {used} of its {size} bytes'
 
 
 
